@@ -1,6 +1,8 @@
 package props
 
 import (
+	"bufio"
+	"bytes"
 	"errors"
 	"fmt"
 	"io"
@@ -22,6 +24,14 @@ type ParseLive struct {
 }
 
 type posReader interface{ Pos() int }
+
+// lenPos derives the read position of a standard-library reader from its remaining length.
+type lenPos struct {
+	total int
+	rest  func() int
+}
+
+func (l lenPos) Pos() int { return l.total - l.rest() }
 
 // RunParse executes kind "parse" (one ParseCommands call) or "stream"
 // (successive calls on one shared reader until it is exhausted).
@@ -55,6 +65,20 @@ func RunParse(t *testing.T, c *Case, s Sched, keepLog bool) *Obs {
 	case "reader":
 		br = gosim.NewSimByteReader(sim, c.Src, c.Reader)
 		src, pr = br, br
+	case "strings.Reader":
+		r := strings.NewReader(c.Src)
+		src, pr = r, lenPos{len(c.Src), r.Len}
+	case "bytes.Reader":
+		r := bytes.NewReader([]byte(c.Src))
+		src, pr = r, lenPos{len(c.Src), r.Len}
+	case "bytes.Buffer":
+		r := bytes.NewBufferString(c.Src)
+		src, pr = r, lenPos{len(c.Src), r.Len}
+	case "bufio.Reader":
+		// the caller's own bufio.Reader over the whole text: what it has handed out is total minus (buffered + unread)
+		under := strings.NewReader(c.Src)
+		r := bufio.NewReaderSize(under, 16)
+		src, pr = r, lenPos{len(c.Src), func() int { return r.Buffered() + under.Len() }}
 	default: // scanner
 		sr = gosim.NewSimReader(sim, c.Src, c.Reader)
 		src, pr = sr, sr
@@ -169,4 +193,38 @@ func PlainParseDump(c *Case) string {
 	}
 	cmds, comments, err := parser.ParseCommands(env, "sim", src)
 	return fmt.Sprintf("cmds=%s\ncomments=%s\n%s", Dump(cmds, 0), Dump(comments, 0), DumpErr(err))
+}
+
+// RunParse2 executes kind "parse2": two independent callers parse two independent sources at
+// the same time (two caller tasks under one scheduler). Nothing is shared between the calls
+// except package-level state of the library, if there is any; each result must therefore equal
+// the result of the same call made alone.
+func RunParse2(t *testing.T, c *Case, s Sched, keepLog bool) *Obs {
+	sim := MakeSim(s, keepLog)
+	o := &Obs{Sched: s, Extra: map[string]string{}}
+	o.Sched.Policy = sim.Policy.Name()
+	if s.UseTape {
+		o.Sched.Policy = "tape"
+	}
+	parts := make([]string, 2)
+	mk := func(i int, src string) func() {
+		return func() {
+			cc := *c
+			cc.Src = src
+			r := gosim.NewSimReader(sim, src, gosim.ReaderPlan{Kind: "scanner", FaultAt: -1})
+			cmds, comments, err := parser.ParseCommands(nil, "sim", r)
+			parts[i] = fmt.Sprintf("cmds=%s\ncomments=%s\n%s\npos=%d", Dump(cmds, 0), Dump(comments, 0), DumpErr(err), r.Pos())
+		}
+	}
+	o.Res = gosim.RunInBubble(t, sim, mk(0, c.Src), mk(1, c.Src2))
+	o.Parts = parts
+	o.Dump = joinParts(parts)
+	return o
+}
+
+// SoloDump is what RunParse2 must produce for one of its callers: the same call made alone.
+func SoloDump(src string) string {
+	r := gosim.NewSimReader(nil, src, gosim.ReaderPlan{Kind: "scanner", FaultAt: -1})
+	cmds, comments, err := parser.ParseCommands(nil, "sim", r)
+	return fmt.Sprintf("cmds=%s\ncomments=%s\n%s\npos=%d", Dump(cmds, 0), Dump(comments, 0), DumpErr(err), r.Pos())
 }
